@@ -744,6 +744,20 @@ func (fr *Frame) instr(in ssa.Instruction) {
 			bind = append(bind, fr.val(b))
 		}
 		fr.vals[i] = &SVal{T: i.Type(), Term: x.em.Fresh("closure", "Int"), Fn: fn, Bind: bind}
+		// The preconditions of a closure under contract are established where the closure is
+		// created: its free variables are the creator's variables of the same names, and the
+		// creator's parameters are visible to the closure's contract as rigid values.
+		if cc := x.w.contracts[funcKey(fn)]; cc != nil && !fr.inlined && fr.contract != nil && len(cc.Captures) > 0 {
+			x.closuresSeen[funcKey(fn)] = true
+			for k, cl := range cc.Captures {
+				env := fr.newEnv()
+				env.contract = cc
+				env.at = fr.curBlock
+				x.onlyProps = cc.Props
+				fr.oblige("closure-pre", fn.Name()+":"+cl.label(k), fr.evalGuard(cl, env), cl.Src)
+				x.onlyProps = nil
+			}
+		}
 	case *ssa.Call:
 		fr.call(i, i.Common(), i)
 	case *ssa.Defer:
